@@ -33,13 +33,28 @@ Qed.
 (* after a caught panic the shared state is exactly what the completed
    evaluation left: later calls and verification see the calls actually matched *)
 Theorem C11_state_after_caught_panic : forall w x i m a it,
-  live_inst w i = Some it ->
+  live_inst w i = Some it -> matcher_panics (w_cfg w) (w_state w) m a = None ->
   w_state (fst (step w {| ev_ctx := x; ev_base := BCall i m a |})) =
   fst (call hinfo N haccepts hdebug (w_cfg w) (w_state w) m a).
 Proof.
-  intros w x i m a it Hl. unfold step. cbn [ev_base ev_ctx]. rewrite Hl.
+  intros w x i m a it Hl Hm. unfold step. cbn [ev_base ev_ctx]. rewrite Hl, Hm.
   destruct (call hinfo N haccepts hdebug (w_cfg w) (w_state w) m a) as [s' act]. cbn [fst].
   unfold after_call. destruct act; reflexivity.
+Qed.
+
+(* a matcher that panics (user code) has changed nothing for an unordered method; an ordered call has
+   taken its slot (the index is bumped before the matcher runs) and nothing else *)
+Theorem C11_matcher_panic_effect : forall cfg s m a s',
+  matcher_panics cfg s m a = Some s' ->
+  cnt s' = cnt s /\ taken s' = taken s /\ errs s' = errs s /\
+  (next_ord s' = next_ord s \/ next_ord s' = next_ord s + 1).
+Proof.
+  intros cfg s m a s' H. unfold matcher_panics in H.
+  destruct (lookup m (c_table cfg)) as [mk|]; [|discriminate]. destruct (m_mode mk).
+  - destruct (scan_panics a (m_pats mk)); [|discriminate]. injection H as <-. repeat split. now left.
+  - destruct (find_range (next_ord s) (m_pats mk) 0) as [[i p]|]; [|discriminate].
+    destruct (p_matcher p) as [f|]; [|discriminate]. destruct (panicky f a); [|discriminate].
+    injection H as <-. repeat split. now right.
 Qed.
 
 (* non-vacuity: an original with an unmet expectation and a live clone, owned by a
